@@ -408,6 +408,8 @@ fn dyn_struct_name(trait_name: &str) -> String {
     go_ident(&format!("dyn__{}", trait_name))
 }
 
+// The element type's spelling is kept as it is: lower-casing it gave `Ref[Foo]` and `Ref[foo]` one
+// cell struct.
 pub fn ref_struct_name(elem: &tast::Ty) -> String {
-    format!("ref_{}_x", go_ident(&encode_ty(elem)).to_lowercase())
+    format!("ref_{}_x", go_ident(&encode_ty(elem)))
 }
